@@ -450,6 +450,9 @@ func c01opts(k *mon.Case) fontgen.Opts {
 		o.MaxGlyphs = 3
 	case 1:
 		o.MinGlyphs, o.MaxGlyphs = 255, 257
+		if k.Index/24%2 == 1 {
+			o.MinGlyphs, o.MaxGlyphs = 258, 262
+		}
 	case 2:
 		if k.C.Thorough() || k.Index%5 == 0 {
 			o.MinGlyphs, o.MaxGlyphs = 900, 1100
